@@ -11,3 +11,8 @@ open GV.ScalarMulGen
 #print axioms C03loop_te_smul
 #print axioms C03loop_te_smul_all
 #print axioms C03loop_variants_agree
+#print axioms C03loop_joint_word_partial
+#print axioms C03loop_joint_loop_partial
+#print axioms C03loop_glv_word_partial
+#print axioms C03loop_glv_loop_partial
+#print axioms C03loop_shamir_all_packages
